@@ -10,8 +10,29 @@ import sys
 import traceback
 
 
+def _single_threaded_scipp():
+    """scipp's TBB pool sizes itself from the CPU affinity mask it finds when it is first used: with one worker
+    process per core, 16 threads per worker only oversubscribe the machine (measured: no gain even for 1e6-element
+    arrays).  Narrow the mask while the pool is created, then give the process all cores back."""
+    try:
+        cpus = os.sched_getaffinity(0)
+        if len(cpus) > 1 and os.environ.get('RV_SCIPP_THREADS', '1') == '1':
+            os.sched_setaffinity(0, {min(cpus)})
+            try:
+                import numpy as np
+                import scipp as sc
+
+                a = sc.array(dims=['x'], values=np.arange(4096.0))
+                (a * a).sum()
+            finally:
+                os.sched_setaffinity(0, cpus)
+    except Exception:  # noqa: BLE001  (platforms without sched_setaffinity)
+        pass
+
+
 def main():
     faulthandler.enable()
+    _single_threaded_scipp()
     pid, shard_path, out_path = sys.argv[1:4]
     deps = os.environ.get('RV_DEPS')
     if deps and deps not in sys.path:
